@@ -1,12 +1,2 @@
-(* GENERATED by tools/gen/g_dedupe.py from preprocess/dedupe_main.cc and preprocess/parallel.hh -- do not edit *)
-From Coq Require Import NArith.
-Local Open Scope N_scope.
-
-Definition dedupe_seed_line : N := 1.
-Definition dedupe_seed_field : N := 1.
-(* Dedupe::operator()(uint64_t): is the key the table reserves for empty buckets handled by a separate flag? *)
-Definition dedupe_has_reserved_guard : bool := true.
-Definition dedupe_reserved_key : N := 0.
-Definition par_unbalanced_exit : N := 2.
-(* strip_cr argument of every ReadLine in FilterParallel (default true when absent) *)
-Definition parallel_strip_cr : bool := false.
+(* translator failed: the ReadLine calls of parallel.hh do not all use the same strip_cr argument: ['', 'false'] *)
+Definition translator_failed : True := 0.
